@@ -856,6 +856,9 @@ def replay(chk, rep):
     runner = os.path.join(common.EXTRACT, "model_runner")
     print(json.dumps({k: v for k, v in rep.items() if k not in ("coqc_output",)}, indent=1)[:4000])
     line = rep.get("replay")
+    if rep.get("part") in ("writer", "writer-api") or str(rep.get("correspondence", "")).startswith("corr:C16:writer"):
+        import c16_idem
+        return c16_idem.replay_writer(chk, rep)
     if isinstance(line, str) and line.startswith("c16"):
         i = common.run_lines(drv, [line])[0]
         m = common.run_lines(runner, [line])[0]
